@@ -379,6 +379,8 @@ fn walk_from_views(acc: &[(GK, u128, bool, bool, bool)]) -> Walk {
         free_len: 0,
         arena_len: acc.len(),
         valued: 0,
+        free: vec![],
+        count: 0,
     }
 }
 
@@ -474,6 +476,123 @@ pub fn split_hold<P: PType>(st: &MapSt<P>, cx: &Cx) -> (Vec<Viol>, u64) {
         }
         if let Some(x) = retag(compare_entries("PrefixMap::iter (after writes through split views)", &crate::ops::collect_iter(&mc), &model.entries()), "C13", format!("split depth {d}")) {
             out.push(x);
+        }
+    }
+    (out, n)
+}
+
+/// C16: churn cycles return to the same arena size; a canonical map emptied by `remove` holds no node
+pub fn churn<P: PType>(st: &MapSt<P>, cx: &Cx) -> (Vec<Viol>, u64) {
+    let mut out = vec![];
+    let mut n = 0u64;
+    let keys = &cx.uni.keys;
+    let arena = |m: &PrefixMap<P, u32>| m.verif_dump().arena_len;
+    // single-key and two-key cycles that return to the same entry set
+    for (i, &k1) in keys.iter().enumerate() {
+        for (j, &k2) in keys.iter().enumerate() {
+            if j < i {
+                continue;
+            }
+            let mut m = st.map.clone();
+            let had1 = st.model.get(k1).is_some();
+            let had2 = st.model.get(k2).is_some();
+            let mut after2 = 0;
+            for round in 0..12 {
+                // toggle k1, toggle k2, toggle k1 back, toggle k2 back
+                for (k, had) in [(k1, had1), (k2, had2), (k1, !had1), (k2, !had2)] {
+                    if i == j && k == k2 && (had == had2) != (k == k1 && had == had1) {
+                        // same key: only two toggles per round are meaningful; fall through harmlessly
+                    }
+                    if m.contains_key(&mkp::<P>(k)) {
+                        m.remove(&mkp::<P>(k));
+                    } else {
+                        m.insert(mkp::<P>(k), 1);
+                    }
+                    let _ = had;
+                }
+                if round == 1 {
+                    after2 = arena(&m);
+                }
+            }
+            n += 48;
+            let end = arena(&m);
+            expect!(out, end == after2, "C16", "insert/remove cycle", "arena-grows-under-churn", "toggling {:x?} and {:x?}: arena has {} slots after 2 rounds and {} after 12", k1, k2, after2, end);
+            let d = m.verif_dump();
+            let (w, _, _) = walk(&d, cx.uni.width);
+            expect!(out, w.nodes.len() + d.free.len() == d.arena_len, "C16", "insert/remove cycle", "slot-leaked", "{} reachable + {} free != {} slots", w.nodes.len(), d.free.len(), d.arena_len);
+        }
+    }
+    // remove_children / retain cycles
+    for &k in keys.iter() {
+        let mut m = st.map.clone();
+        let entries: Vec<(P, u32)> = m.iter().map(|(p, v)| (p.clone(), *v)).collect();
+        let mut after2 = 0;
+        for round in 0..8 {
+            m.remove_children(&mkp::<P>(k));
+            for (p, v) in &entries {
+                m.insert(p.clone(), *v);
+            }
+            m.retain(|p, _| !crate::model::covers(k, p.raw()));
+            for (p, v) in &entries {
+                m.insert(p.clone(), *v);
+            }
+            if round == 1 {
+                after2 = arena(&m);
+            }
+        }
+        n += 8;
+        let end = arena(&m);
+        expect!(out, end == after2, "C16", "remove_children/retain cycle", "arena-grows-under-churn", "selector {:x?}: arena has {} slots after 2 rounds and {} after 8", k, after2, end);
+    }
+    // a canonical map emptied by remove needs no more nodes than a new one
+    if crate::arena::is_canonical(&st.walk) {
+        for rev in [false, true] {
+            let mut m = st.map.clone();
+            let mut ks: Vec<GK> = st.model.keys();
+            if rev {
+                ks.reverse();
+            }
+            for k in ks {
+                m.remove(&mkp::<P>(k));
+            }
+            let d = m.verif_dump();
+            let (w, _, _) = walk(&d, cx.uni.width);
+            n += 1;
+            expect!(out, w.nodes.len() == 1 && d.free.len() + 1 == d.arena_len, "C16", "remove (until empty)", "emptied-map-keeps-nodes", "after removing every entry: {} reachable nodes, {} free of {} slots", w.nodes.len(), d.free.len(), d.arena_len);
+        }
+    }
+    (out, n)
+}
+
+/// C19: a clone is fully independent of the original (every operation of the alphabet applied to
+/// the clone leaves the original's arena bit-identical, and vice versa)
+pub fn clone_indep<P: PType>(st: &MapSt<P>, cx: &Cx) -> (Vec<Viol>, u64) {
+    use crate::sut::Sut;
+    let mut out = vec![];
+    let mut n = 0u64;
+    let ops = <PrefixMap<P, u32> as Sut>::enumerate_ops(cx.uni, &st.model, crate::ops::Alphabet::Full, 0, false);
+    let same = |a: &prefix_trie::verif::ArenaDump, b: &prefix_trie::verif::ArenaDump| a.arena_len == b.arena_len && a.free == b.free && a.count == b.count && a.slots == b.slots;
+    let before = st.map.verif_dump();
+    let orig = st.map.clone();
+    for op in ops {
+        let mut c = orig.clone();
+        let mut model = st.model.clone();
+        let _ = crate::ops::apply(&mut c, &mut model, &st.walk, op, 9000, cx);
+        n += 1;
+        let after = orig.verif_dump();
+        if !same(&before, &after) {
+            out.push(Viol::new("C19", "Clone::clone", "clone-shares-state", format!("{} on the clone changed the original", op.describe(cx.uni))));
+            break;
+        }
+        // and the other direction: mutate the original's stand-in, the clone taken before stays put
+        let keep = orig.clone();
+        let kd = keep.verif_dump();
+        let mut o2 = orig.clone();
+        let mut model2 = st.model.clone();
+        let _ = crate::ops::apply(&mut o2, &mut model2, &st.walk, op, 9000, cx);
+        if !same(&kd, &keep.verif_dump()) {
+            out.push(Viol::new("C19", "Clone::clone", "clone-shares-state", format!("{} on the original changed an earlier clone", op.describe(cx.uni))));
+            break;
         }
     }
     (out, n)
